@@ -99,6 +99,15 @@ fn base_text(b: &Base) -> String {
     }
 }
 
+/// 0..30: the hand-picked alphabet; 30..158: every ASCII code point (incl. all control characters)
+fn alpha(a: u8) -> char {
+    if (a as usize) < ALPHABET.len() {
+        ALPHABET[a as usize]
+    } else {
+        char::from((a - ALPHABET.len() as u8) % 128)
+    }
+}
+
 fn apply(text: &str, edits: &[Edit]) -> String {
     let mut cs: Vec<char> = text.chars().collect();
     for e in edits {
@@ -106,12 +115,12 @@ fn apply(text: &str, edits: &[Edit]) -> String {
             Edit::Replace(i, a) => {
                 if !cs.is_empty() {
                     let i = pick(*i, cs.len());
-                    cs[i] = ALPHABET[*a as usize % ALPHABET.len()];
+                    cs[i] = alpha(*a);
                 }
             }
             Edit::Insert(i, a) => {
                 let i = pick(*i, cs.len() + 1);
-                cs.insert(i, ALPHABET[*a as usize % ALPHABET.len()]);
+                cs.insert(i, alpha(*a));
             }
             Edit::Delete(i) => {
                 if !cs.is_empty() {
@@ -146,8 +155,8 @@ fn near_miss() -> impl Strategy<Value = NearMiss> {
         3 => prop::collection::vec(0u8..8, 1..5).prop_map(Base::Path),
     ];
     let edit = prop_oneof![
-        4 => (any::<u32>(), 0u8..30).prop_map(|(i, a)| Edit::Replace(i, a)),
-        2 => (any::<u32>(), 0u8..30).prop_map(|(i, a)| Edit::Insert(i, a)),
+        4 => (any::<u32>(), prop_oneof![3 => 0u8..30, 1 => 30u8..158]).prop_map(|(i, a)| Edit::Replace(i, a)),
+        2 => (any::<u32>(), prop_oneof![3 => 0u8..30, 1 => 30u8..158]).prop_map(|(i, a)| Edit::Insert(i, a)),
         2 => any::<u32>().prop_map(Edit::Delete),
         1 => any::<u32>().prop_map(Edit::Truncate),
         1 => any::<u32>().prop_map(Edit::Dup),
@@ -244,6 +253,43 @@ fn check_short(s: &Short, cx: &mut Cx) -> Res {
             check_timestamp_text(&s.text, cx)?;
             check_traceparent_text(&s.text, cx)
         }
+    }
+}
+
+#[derive(Serialize, Deserialize, Debug, Clone)]
+struct Sweep {
+    base: u8,
+    pos: u8,
+    byte: u8,
+}
+
+/// (kind, text): 0 = trace id, 1 = span id, 2 = traceparent, 3 = timestamp, 4 = flags
+const SWEEP_BASES: [(u8, &str); 8] = [
+    (0, "4bf92f3577b34da6a3ce929d0e0e4736"),
+    (0, "0000000000000000000000000000000A"),
+    (1, "00f067aa0ba902b7"),
+    (1, "FFFFFFFFFFFFFFFF"),
+    (2, "00-4bf92f3577b34da6a3ce929d0e0e4736-00f067aa0ba902b7-01"),
+    (3, "2024-02-29T23:59:59.123456789Z"),
+    (3, "1970-01-01T00:00:00Z"),
+    (4, "a1"),
+];
+
+fn check_sweep(c: &Sweep, cx: &mut Cx) -> Res {
+    let (kind, text) = SWEEP_BASES[c.base as usize];
+    let mut bytes = text.as_bytes().to_vec();
+    bytes[c.pos as usize] = c.byte;
+    cx.nontrivial(bytes != text.as_bytes());
+    match kind {
+        0 => check_trace_id_bytes(&bytes, cx),
+        1 => check_span_id_bytes(&bytes, cx),
+        4 => check_flags_bytes(&bytes, cx),
+        _ => match std::str::from_utf8(&bytes) {
+            Ok(s) if kind == 2 => check_traceparent_text(s, cx),
+            Ok(s) => check_timestamp_text(s, cx),
+            // not UTF-8: the &str entry points cannot be reached with it
+            Err(_) => Ok(()),
+        },
     }
 }
 
@@ -368,6 +414,16 @@ fn main() {
                     })
                 }),
                 check_subst,
+            );
+            // every byte value at every position of valid ids / flags / traceparents / timestamps
+            // (complete sweep: a decode table that wrongly admits ONE byte value cannot hide)
+            s.enumerate(
+                "byte-sweep",
+                (0..SWEEP_BASES.len() as u8).flat_map(|b| {
+                    let len = SWEEP_BASES[b as usize].1.len() as u8;
+                    (0..len).flat_map(move |p| (0..=255u8).map(move |v| Sweep { base: b, pos: p, byte: v }))
+                }),
+                check_sweep,
             );
             let max_len = if s.quick() { 4 } else { 5 };
             for parser in 0..4u8 {
